@@ -168,6 +168,19 @@ def run_property(pid, tier="quick", replay=None, repo_root=None, write_evidence=
                     raise
                 except Exception as e:
                     results.append(unrecognised("STATE", q, "mutable defaults are not written into", "rule failed: %s" % str(e)[:100]))
+        # memory addresses are not content: no memo keyed by data_ptr() / id()
+        from .rules import identity_key_rule
+        for q in getattr(mod, "ANCHORS", []):
+            if repo.has_func(q):
+                try:
+                    for r in identity_key_rule(repo.func(q)):
+                        if r.key not in keys:
+                            results.append(r)
+                            keys.add(r.key)
+                except AnalysisError:
+                    raise
+                except Exception:
+                    pass
         # an ordered result must not be built by iterating an unordered set
         from .rules import set_order_rule
         for q in getattr(mod, "ANCHORS", []):
